@@ -225,6 +225,23 @@ func Corpus(c *Ctx) []*FileSpec {
 		add("extscope", "extension-scopes", false, f)
 	}
 
+	{ // ONE declaring message with extend blocks for TWO extendees, the same field number used for both
+		f := c.File("extmulti", "proto2")
+		pkg := c.Pkg("extmulti")
+		alpha := Msg("Alpha", F("a", 1, Opt, "int32"))
+		ExtRange(alpha, 100, 199)
+		beta := Msg("Beta", F("b", 1, Opt, "string"))
+		ExtRange(beta, 100, 199)
+		inner := Msg("Note", F("text", 1, Opt, "string"), F("n", 2, Opt, "sint32"))
+		holder := Msg("Holder")
+		holder.Extension = append(holder.Extension,
+			Ext("alpha_note", 100, Opt, FullName(pkg, "Note"), FullName(pkg, "Alpha")),
+			Ext("alpha_more", 101, Opt, FullName(pkg, "Note"), FullName(pkg, "Alpha")),
+			Ext("beta_note", 100, Opt, FullName(pkg, "Note"), FullName(pkg, "Beta")),
+			Ext("beta_tag", 102, Opt, FullName(pkg, "Note"), FullName(pkg, "Beta")))
+		f.MessageType = append(f.MessageType, alpha, beta, inner, holder)
+		add("extmulti", "one-message-extending-two-extendees", true, f)
+	}
 	{ // extensions declared with explicit defaults (GetExtension on an unset one returns the default on the V1 runtimes)
 		f := c.File("extdefault", "proto2")
 		pkg := c.Pkg("extdefault")
